@@ -172,7 +172,8 @@ fn build_ordered<L: flussab_aiger::Lit>(doc: &AigerDoc, swap: bool) -> OrderedAi
     }
 }
 
-/// which: 0 = ascii write_aig(Aig), 1 = ascii write_ordered_aig(OrderedAig), 2 = binary write_ordered_aig
+/// which: 0 = ascii write_aig(Aig), 1 = ascii write_ordered_aig(OrderedAig), 2 = binary write_ordered_aig,
+/// 3 = ascii write_aig(Aig::from(OrderedAig))
 fn write_aiger_t<L: flussab_aiger::Lit>(doc: &AigerDoc, which: u8, swap: bool) -> Vec<u8> {
     let mut out = vec![];
     {
@@ -186,6 +187,12 @@ fn write_aiger_t<L: flussab_aiger::Lit>(doc: &AigerDoc, which: u8, swap: bool) -
             1 => {
                 let aig = build_ordered::<L>(doc, swap);
                 flussab_aiger::ascii::Writer::<L>::new(&mut dw).write_ordered_aig(&aig);
+                let _ = dw.flush();
+            }
+            3 => {
+                // the documented conversion OrderedAig -> Aig, then the writer for unordered circuits
+                let aig: Aig<L> = build_ordered::<L>(doc, swap).into();
+                flussab_aiger::ascii::Writer::<L>::new(&mut dw).write_aig(&aig);
                 let _ = dw.flush();
             }
             _ => {
@@ -282,15 +289,20 @@ fn binary_op(k: &str) -> b2::BinaryOp {
 
 /// Writes the BTOR2 document through flussab's Line::write_into. Constants go through the validating
 /// TryFrom constructors; a line whose constant is refused is skipped (returns the kept lines).
-fn write_btor(doc: &BtorDoc, rep: &mut Report) -> (Vec<u8>, Vec<String>) {
+fn write_btor(doc: &BtorDoc, rep: &mut Report) -> (Vec<u8>, Vec<String>, Vec<u8>) {
     let mut out = vec![];
     let mut expected = vec![];
+    // the same lines through `impl Display for Line` (the other public way to turn a line into text)
+    let mut shown: Vec<u8> = vec![];
     {
         let mut w = DeferredWriter::from_write(&mut out);
         for line in &doc.lines {
             match line {
                 BLine::Comment(c) => {
-                    b2::Line::Comment(c.as_slice().into()).write_into(&mut w);
+                    let l = b2::Line::Comment(c.as_slice().into());
+                    l.write_into(&mut w);
+                    shown.extend_from_slice(l.to_string().as_bytes());
+                    shown.push(b'\n');
                     expected.push(gen::btor_item(line));
                 }
                 BLine::Node {
@@ -401,6 +413,8 @@ fn write_btor(doc: &BtorDoc, rep: &mut Report) -> (Vec<u8>, Vec<String>) {
                         comment: comment.as_ref().map(|s| s.as_slice().into()),
                     });
                     node.write_into(&mut w);
+                    shown.extend_from_slice(node.to_string().as_bytes());
+                    shown.push(b'\n');
                     // the value's own canonical rendering (from the typed value, not from the abstract one)
                     let mut s = String::new();
                     drive::btor_line_str(&mut s, &node);
@@ -414,7 +428,7 @@ fn write_btor(doc: &BtorDoc, rep: &mut Report) -> (Vec<u8>, Vec<String>) {
         }
         let _ = w.flush();
     }
-    (out, expected)
+    (out, expected, shown)
 }
 
 // ------------------------------------------------------------------------------ direction 2: re-writing parsed values
@@ -672,6 +686,18 @@ impl Monitor for C03 {
                         if !self.judge(rep, bcfg, &written, &expected, "binary write_ordered_aig(value)->parse", expected.len() >= 2) {
                             return;
                         }
+                        if rng.chance(1, 2) {
+                            // the same bytes through the section readers, moving on before a section is
+                            // exhausted: the entries asked for are the written ones, the end is clean
+                            let mut scfg = bcfg;
+                            scfg.sections = true;
+                            scfg.skip = drive::random_skip(rng);
+                            let part = drive::filter_skipped(&expected, scfg.skip);
+                            rep.inc("aiger_section_skipping_roundtrips");
+                            if !self.judge(rep, scfg, &written, &part, "binary write_ordered_aig(value)->section readers, skipping", false) {
+                                return;
+                            }
+                        }
                         // ascii writer for ordered circuits -> ascii parser (not with astronomically many inputs)
                         if doc.n_inputs <= 5000 {
                             let mut acfg = cfg;
@@ -679,12 +705,33 @@ impl Monitor for C03 {
                             let eq = ascii_equivalent(&doc, swap);
                             let written = sut(|| write_aiger(&doc, cfg.lt, 1, swap));
                             let expected = gen::render_aiger(&eq, cfg.lt).items;
-                            self.judge(rep, acfg, &written, &expected, "ascii write_ordered_aig(value)->parse", expected.len() >= 2);
+                            if !self.judge(rep, acfg, &written, &expected, "ascii write_ordered_aig(value)->parse", expected.len() >= 2) {
+                                return;
+                            }
+                            let written = sut(|| write_aiger(&doc, cfg.lt, 3, swap));
+                            self.judge(
+                                rep,
+                                acfg,
+                                &written,
+                                &expected,
+                                "ascii write_aig(Aig::from(ordered value))->parse",
+                                expected.len() >= 2,
+                            );
                         }
                     } else {
                         let written = sut(|| write_aiger(&doc, cfg.lt, 0, false));
                         let expected = gen::render_aiger(&doc, cfg.lt).items;
-                        self.judge(rep, cfg, &written, &expected, "ascii write_aig(value)->parse", expected.len() >= 2);
+                        if !self.judge(rep, cfg, &written, &expected, "ascii write_aig(value)->parse", expected.len() >= 2) {
+                            return;
+                        }
+                        if rng.chance(1, 2) {
+                            let mut scfg = cfg;
+                            scfg.sections = true;
+                            scfg.skip = drive::random_skip(rng);
+                            let part = drive::filter_skipped(&expected, scfg.skip);
+                            rep.inc("aiger_section_skipping_roundtrips");
+                            self.judge(rep, scfg, &written, &part, "ascii write_aig(value)->section readers, skipping", false);
+                        }
                     }
                 }
                 _ => {
@@ -697,7 +744,8 @@ impl Monitor for C03 {
                         } = line
                         {
                             if rng.chance(1, 3) {
-                                let n = 1 + rng.usize(6);
+                                // the empty string as well: the constructors must refuse it
+                                let n = rng.usize(7);
                                 *digits = (0..n)
                                     .map(|i| {
                                         let a: &[u8] = if i == 0 { b"-019afAFgx" } else { b"0123456789abcdefABCDEFgx-" };
@@ -734,8 +782,17 @@ impl Monitor for C03 {
                             rep.inc("choice:btor_comment_line");
                         }
                     }
-                    let (written, expected) = sut(|| write_btor(&doc, rep));
-                    self.judge(rep, cfg, &written, &expected, "Line::write_into(value)->parse", expected.len() >= 2);
+                    let (written, expected, shown) = sut(|| write_btor(&doc, rep));
+                    if !self.judge(rep, cfg, &written, &expected, "Line::write_into(value)->parse", expected.len() >= 2) {
+                        return;
+                    }
+                    // Display is lossy for non-UTF-8 symbols/comments by its signature; judged on UTF-8 documents
+                    if std::str::from_utf8(&written).is_ok() {
+                        rep.inc("btor_documents_also_through_display");
+                        self.judge(rep, cfg, &shown, &expected, "Line::to_string(value)->parse", expected.len() >= 2);
+                    } else {
+                        rep.inc("btor_documents_not_utf8_display_skipped");
+                    }
                 }
             }
         } else {
